@@ -25,6 +25,9 @@ It never imports mesonbuild and shares no code with it.  An *answer* is a tuple
     'open'  the documents are silent / self-contradictory for this cell: consistency-only
             (the set then lists what would be *explicable*; the driver only counts, never demands)
 
+`version:` constraints: single or array (all must hold); an unknown version never satisfies one (dependency.yaml).
+`not_found_message:` is not part of a Lookup: the documents give it no influence on what is returned.
+
 Cells left open (and why):
 * explicit `fallback:` together with `allow_fallback:` - the documents do not say the two are exclusive
   (the code rejects the call);
@@ -69,8 +72,11 @@ def satisfies(version: T.Optional[str], constraint: T.Optional[str]) -> bool:
     """Only the purely numeric dotted versions used by the generator ('1.0', '2', '2.1')."""
     if not constraint:
         return True
-    if version is None:
+    if version is None or version == 'unknown':
         return False  # "These requirements are never met if the version is unknown."
+    if isinstance(constraint, (list, tuple)):
+        # "You can also specify multiple restrictions by passing an array"
+        return all(satisfies(version, c) for c in constraint)
     m = re.fullmatch(r'\s*(>=|<=|==|!=|>|<|=)?\s*([0-9.]+)\s*', constraint)
     assert m, constraint
     op, ref = m.group(1) or '==', m.group(2)
@@ -314,6 +320,8 @@ def selftest() -> None:
     assert expect(wo._replace(sub_dl_how='cmdline', sub_dl_value='static'), S(), lk)[1] == 'doc'
     assert expect(wo, S(override=('override', '2.2'), override_slots=slots('static')), L(static=True))[:2] == ({('override', '2.2')}, 'doc')
     assert expect(wo, S(override=('override', '2.2'), override_slots=slots('shared')), L(static=True))[1] == 'open'
+    assert not satisfies('unknown', '<2.0') and satisfies('unknown', None) and satisfies('1.1', ('<2.0', '!=0.3'))
+    assert not satisfies('2.1', ['<2.0', '!=0.3']) and satisfies('2.0', '<=2.0') and not satisfies('1.0', '!=1.0')
     assert satisfies('2.0', '>=2') and not satisfies('1.1', '>=2') and satisfies('1.1', '<2') and not satisfies('2', '<2')
 
 
